@@ -287,6 +287,8 @@ def apply_closure(clo, args):
         if len(args) == 1 and formal[0] == "tuple" and args[0][0] == "tuple" and len(formal[1]) == len(args[0][1]):
             m.update(dict(zip(formal[1], args[0][1])))
         return subst_term(body, m)
+    if clo[0] == "fnref":
+        return ("call", clo[1], tuple(args))      # a function path used as the closure: `.all(Zero::is_zero)`
     if clo[0] == "closure" and _closure_hook[0] is not None:
         r = _closure_hook[0](clo, args)
         if r is not None:
@@ -1318,7 +1320,9 @@ class TermBuilder:
                   and no_param_stores()
                   and cf.name not in NO_INLINE
                   and all((not b.term.k == "call") or (b.term.callee_name() in safe) or diverging_or_fmt(b)
-                          or (not b.term.callee_is_local() and b.term.callee_name() in INLINE_SAFE_EXTERNAL) for b in nb))
+                          or (not b.term.callee_is_local() and b.term.callee_name() in INLINE_SAFE_EXTERNAL)
+                          or (b.term.dest is not None and b.term.dest.is_local() and cf.local_ty(b.term.dest.local) == "()")   # a call made for its effect only
+                          for b in nb))
             _INLINE_OK[key] = ok
         if not ok:
             return None
@@ -1326,8 +1330,13 @@ class TermBuilder:
         tb = TermBuilder(cf, self.prog, subst, self.depth + 1)
         r = tb.return_term()
         _closure_hook[0] = self._apply_closure_hook
-        if any(x[0] in ("unknown", "rec", "clobber", "phi") for x in subterms(r)) and any(b.term.k == "switch" for b in cf.blocks if not b.cleanup):
-            return None       # a helper that branches is only inlined when every return yields one and the same term
+        diverges = any(b.term.k == "call" and (b.term.j.get("target") is None) for b in cf.blocks if not b.cleanup)
+        branching = any(b.term.k == "switch" for b in cf.blocks if not b.cleanup)
+        if branching and any(x[0] in ("unknown", "rec", "clobber", "phi") for x in subterms(r)) and (diverges or cf.local_ty(0) != "bool"):
+            # a validating helper (one that can panic) is only inlined when every return yields one and the same term; a pure
+            # branching helper only when it is a predicate (`a[p] || b[p]` reads the same inline or out of line) — numeric ones keep
+            # their call term, whose value is taken path by path where it matters (intervals)
+            return None
         if any(x[0] in ("unknown", "rec", "clobber") for x in subterms(r)):
             return None
         return r
@@ -1335,11 +1344,11 @@ class TermBuilder:
 
 IN_PLACE_PERMUTATIONS = {"sort", "sort_by", "sort_by_key", "sort_unstable", "sort_unstable_by", "sort_unstable_by_key", "sort_by_cached_key"}
 _INLINE_OK = {}
-INLINE_SAFE_EXTERNAL = {"from_elem", "zero", "one", "max", "min", "checked_mul", "checked_add", "checked_sub", "unwrap", "expect", "new", "with_capacity",
+INLINE_SAFE_EXTERNAL = {"from_elem", "zero", "one", "max", "min", "index", "get", "len", "is_empty", "checked_mul", "checked_add", "checked_sub", "unwrap", "expect", "new", "with_capacity",
                         "default", "with_fill", "block_with_fill", "size_of"}
 NO_INLINE = {"start", "fingerprint", "hash", "iter_for", "h_i", "scan", "count", "sum", "calc_quotient_remainder", "insert_internal",
              "at_start_of_run", "has_run", "all_zero_intvector", "with_registers_and_hash", "with_params_and_hash", "with_params_and_hasher", "f", "fuse"}
-INLINE_SAFE_CALLEES = {"len", "element_bits", "deref", "borrow", "clone", "as_ref", "is_empty", "m", "k", "buildhasher", "bits_remainder",
+INLINE_SAFE_CALLEES = {"len", "element_bits", "deref", "borrow", "deref_mut", "borrow_mut", "clone", "as_ref", "is_empty", "m", "k", "buildhasher", "bits_remainder",
                        "is_some", "is_none", "mean", "delta", "f", "f_inv", "interpolate", "x", "z"}
 
 
